@@ -1063,3 +1063,180 @@ pub fn first_packet_replay_native(pn: u8) -> u32 {
     assert!(conn.total_authed_packets == authed + 1, "a fresh Initial was not processed");
     1
 }
+
+/// Native replay body for the E2 queries `e2_handle_packet_core_slice` / `e2_handle_packet_dedup_closure`
+/// (C04), on a real established server connection with the stand-in AEAD (a payload authenticates iff it ends
+/// in the key's tag byte).  mode 0: the same authentic 1-RTT datagram (one PING) delivered twice is processed
+/// once and counted as authenticated once, with its number recorded; a packet that fails authentication is
+/// not processed at all.  mode 1: a datagram flagged as a stateless reset is never processed as a packet,
+/// even when it would decrypt.  mode 2: a packet with the same number in ANOTHER space is not a duplicate.
+pub fn handle_packet_core_native(mode: u8) -> u32 {
+    let mut conn = mk_conn(true, false);
+    conn.state = State::Established;
+    conn.path.validated = true;
+    conn.spaces[SpaceId::Data].crypto = Some(nullcrypto::tagged_keys(0));
+    conn.spaces[SpaceId::Handshake].crypto = Some(nullcrypto::tagged_keys(0));
+    conn.highest_space = SpaceId::Data;
+    conn.spaces[SpaceId::Initial].crypto = None;
+    let now = crate::verif::mk_instant(51, 0).unwrap();
+    let remote = addr(1, 4433);
+    let short = |pn: u8, tag: u8| vec![0x40u8, 2, 2, 2, 2, 2, 2, 2, 2, pn, 0x01, 0, 0, tag];
+    let deliver = |conn: &mut Connection, v: &[u8]| {
+        let (first_decode, remaining) = PartialDecode::new(BytesMut::from(v), &FixedLengthConnectionIdParser::new(8), &[1], true).ok().expect("decodes");
+        conn.handle_event(ConnectionEvent(ConnectionEventInner::Datagram(DatagramConnectionEvent { now, remote, ecn: None, first_decode, remaining })));
+    };
+    match mode {
+        0 => {
+            // not authentic: nothing happens
+            deliver(&mut conn, &short(7, 9));
+            assert!(conn.total_authed_packets == 0 && conn.stats.frame_rx.ping == 0, "a packet that failed authentication was acted upon");
+            deliver(&mut conn, &short(7, 0));
+            assert!(conn.total_authed_packets == 1, "an authentic packet was not counted as authenticated");
+            assert!(conn.stats.frame_rx.ping == 1, "an authentic packet was not processed");
+            assert!(conn.spaces[SpaceId::Data].rx_packet == 7, "the authenticated packet's number was not recorded");
+            deliver(&mut conn, &short(7, 0));
+            assert!(conn.stats.frame_rx.ping == 1, "a duplicate packet was processed a second time");
+            assert!(conn.total_authed_packets == 1, "a duplicate packet was counted as authenticated a second time");
+            deliver(&mut conn, &short(8, 0));
+            assert!(conn.stats.frame_rx.ping == 2 && conn.total_authed_packets == 2, "a fresh packet was discarded");
+            1
+        }
+        1 => {
+            let v = short(7, 0);
+            let packet = Packet {
+                header: Header::Short { spin: false, key_phase: false, dst_cid: ConnectionId::new(&[2; 8]), number: PacketNumber::U8(7) },
+                header_data: Bytes::copy_from_slice(&v[..10]),
+                payload: BytesMut::from(&v[10..]),
+            };
+            conn.handle_packet(now, remote, None, Some(packet), true);
+            assert!(conn.stats.frame_rx.ping == 0, "a stateless reset was processed as a packet");
+            assert!(conn.state.is_drained(), "a stateless reset did not end the connection");
+            2
+        }
+        _ => {
+            deliver(&mut conn, &short(7, 0));
+            assert!(conn.stats.frame_rx.ping == 1);
+            // Handshake packet number 7: long header, 1-byte number, one PING
+            let hs = vec![0xe0u8, 0, 0, 0, 1, 8, 2, 2, 2, 2, 2, 2, 2, 2, 8, 3, 3, 3, 3, 3, 3, 3, 3, 5, 7, 0x01, 0, 0, 0];
+            deliver(&mut conn, &hs);
+            assert!(conn.stats.frame_rx.ping == 2, "a packet was taken for a duplicate of a packet in a different number space");
+            4
+        }
+    }
+}
+
+fn mk_migratable_server() -> Connection {
+    let mut conn = mk_conn(true, true);
+    conn.state = State::Established;
+    conn.path.validated = true;
+    conn.spaces[SpaceId::Data].crypto = Some(nullcrypto::tagged_keys(0));
+    conn.highest_space = SpaceId::Data;
+    conn.spaces[SpaceId::Initial].crypto = None;
+    conn.spaces[SpaceId::Handshake].crypto = None;
+    conn.path.mtud = mtud::mk_disabled();
+    conn
+}
+
+fn deliver_short(conn: &mut Connection, now: Instant, remote: SocketAddr, pn: u8, frames: &[u8]) {
+    let mut v = vec![0x40u8, 2, 2, 2, 2, 2, 2, 2, 2, pn];
+    v.extend_from_slice(frames);
+    v.extend_from_slice(&[0, 0, 0]); // PADDING; the last byte is what the stand-in AEAD checks (tag 0)
+    let (first_decode, remaining) = PartialDecode::new(BytesMut::from(&v[..]), &FixedLengthConnectionIdParser::new(8), &[1], true).ok().expect("decodes");
+    conn.handle_event(ConnectionEvent(ConnectionEventInner::Datagram(DatagramConnectionEvent { now, remote, ecn: None, first_decode, remaining })));
+}
+
+/// Native replay body for the E2 slice query `e2_migration_trigger_slice` (C15), on a real server that
+/// permits migration: a packet from a new address moves the connection there only if it carries a
+/// non-probing frame AND has the highest packet number seen; a probing-only packet, or a reordered
+/// (older) packet from another address - e.g. a replay by an off-path attacker - does not.
+pub fn migration_trigger_native(mode: u8) -> u32 {
+    let mut conn = mk_migratable_server();
+    let now = crate::verif::mk_instant(51, 0).unwrap();
+    let (home, other) = (addr(1, 4433), addr(66, 7777));
+    deliver_short(&mut conn, now, home, 10, &[0x01]);
+    assert!(conn.path.remote == home && conn.spaces[SpaceId::Data].rx_packet == 10);
+    match mode {
+        0 => {
+            // probing frames only (PATH_CHALLENGE + PADDING), highest number
+            deliver_short(&mut conn, now, other, 11, &[0x1a, 9, 9, 9, 9, 9, 9, 9, 9]);
+            assert!(conn.path.remote == home, "a probing packet moved the connection");
+            1
+        }
+        1 => {
+            // non-probing but not the newest packet
+            deliver_short(&mut conn, now, other, 5, &[0x01]);
+            assert!(conn.path.remote == home, "a reordered packet from another address moved the connection");
+            2
+        }
+        _ => {
+            deliver_short(&mut conn, now, other, 11, &[0x01]);
+            assert!(conn.path.remote == other, "the server did not follow its peer to the new address");
+            assert!(!conn.path.validated && conn.path.challenge.is_some(), "the new path must start unvalidated with a challenge outstanding");
+            assert!(conn.prev_path.as_ref().map(|p| p.1.remote) == Some(home), "the previous path was not kept for falling back");
+            4
+        }
+    }
+}
+
+/// Native replay body for the E2 slice query `e2_path_response_slice` (C15 / C07): a path under
+/// validation becomes validated only by a PATH_RESPONSE carrying the outstanding token and arriving from
+/// the path's own address.
+pub fn path_response_native(mode: u8) -> u32 {
+    let mut conn = mk_migratable_server();
+    let now = crate::verif::mk_instant(51, 0).unwrap();
+    let (home, other) = (addr(1, 4433), addr(66, 7777));
+    conn.path.validated = false;
+    conn.path.challenge = Some(0x0102_0304_0506_0708);
+    conn.path.total_recvd = 10_000;
+    let good = [0x1bu8, 1, 2, 3, 4, 5, 6, 7, 8];
+    let bad = [0x1bu8, 1, 2, 3, 4, 5, 6, 7, 9];
+    match mode {
+        0 => {
+            deliver_short(&mut conn, now, home, 1, &bad);
+            assert!(!conn.path.validated && conn.path.challenge.is_some(), "a PATH_RESPONSE with the wrong token validated the path");
+            1
+        }
+        1 => {
+            deliver_short(&mut conn, now, other, 1, &good);
+            assert!(conn.path.remote == home);
+            assert!(!conn.path.validated && conn.path.challenge.is_some(), "a PATH_RESPONSE from another address validated the path");
+            2
+        }
+        _ => {
+            deliver_short(&mut conn, now, home, 1, &good);
+            assert!(conn.path.validated && conn.path.challenge.is_none(), "the genuine PATH_RESPONSE did not validate the path");
+            4
+        }
+    }
+}
+
+/// Native replay body for the E2 slice query `e2_detect_lost_iteration_slice` (C12), on a real connection
+/// with smoothed RTT 1 s (loss delay 9/8 s = 1125 ms exactly, packet threshold 3) and packet 10 acknowledged: of the
+/// unacknowledged packets below it, exactly those sent at least 1125 ms ago or at least 3 packets before
+/// the acknowledged one are declared lost; the others stay outstanding.  `age_ms` is the age of packet 8
+/// (1125 = exactly the loss delay: lost).
+pub fn detect_lost_native(age_ms: u16) -> u32 {
+    let mut conn = mk_established(false);
+    let now = crate::verif::mk_instant(60, 0).unwrap();
+    conn.path.rtt = RttEstimator::new(Duration::from_millis(1000));
+    let mk = |age: Duration| SentPacket { path_generation: 0, time_sent: now - age, size: 100, ack_eliciting: true, largest_acked: None, retransmits: ThinRetransmits::default(), stream_frames: Default::default() };
+    let young = Duration::from_millis(10);
+    // number -> age: 7 is exactly three before the largest acknowledged (lost by reordering), 8 has the age
+    // under test, 9 is young (kept)
+    let packets = [(7u64, young), (8, Duration::from_millis(age_ms as u64)), (9, young)];
+    for (n, age) in packets {
+        let p = mk(age);
+        paths::in_flight_insert(&mut conn.path, &p);
+        conn.spaces[SpaceId::Data].sent(n, p);
+    }
+    conn.spaces[SpaceId::Data].largest_acked_packet = Some(10);
+    conn.detect_lost_packets(now, SpaceId::Data, true);
+    let outstanding = |conn: &Connection, n: u64| conn.spaces[SpaceId::Data].sent_packets.get(n).is_some();
+    assert!(!outstanding(&conn, 7), "a packet sent three packets before an acknowledged one was not declared lost");
+    assert!(outstanding(&conn, 9), "a young packet within the reordering threshold was declared lost");
+    let expect_lost = age_ms >= 1125;
+    assert!(outstanding(&conn, 8) != expect_lost, "packet aged {} ms: lost = {}, expected {}", age_ms, !outstanding(&conn, 8), expect_lost);
+    let kept = 1 + (!expect_lost) as u64;
+    assert!(paths::in_flight_bytes(&conn.path) == 100 * kept, "bytes in flight do not match the outstanding packets");
+    1 + expect_lost as u32
+}
